@@ -56,6 +56,7 @@ class PitRun:
         self.wires = {}
         self.nsent = 0
         self.coros = {}
+        self.shared_param = None
 
     def close(self):
         for c in self.coros.values():
@@ -165,6 +166,14 @@ class PitRun:
             e = len(self.tasks) + 1
             name = self.int_name(t)
             kw = dict(can_be_prefix=bool(t['cbp']), lifetime=t['life'] * TICK_MS, nonce=0x01020304)
+            if e % 2 == 0:
+                # every second Interest is expressed through ONE InterestParam object that the caller keeps and
+                # overwrites for the next Interest (the parameters of a pending Interest must not follow it)
+                if self.shared_param is None:
+                    self.shared_param = enc.InterestParam()
+                sp = self.shared_param
+                sp.can_be_prefix, sp.lifetime, sp.nonce, sp.must_be_fresh = bool(t['cbp']), t['life'] * TICK_MS, 0x01020304, False
+                kw = dict(interest_param=sp)
             self.vfut.append([])
             try:
                 before = len(self.face.out)
@@ -204,7 +213,7 @@ class PitRun:
                     self.bg.append('express-unparsable-interest')
         elif a == 'RecvData':
             w = self.wrap(self.data_wire(ev['d']), ev['env'])
-            ex = deliver(self.sess, self.face, w, timers_now=False)
+            ex = deliver(self.sess, self.face, w, timers_now=False, before_run=lambda: self.cancel_in_flight(ev.get('x', [])))
             if ex is not None:
                 self.bg.append('receive:' + type(ex).__name__)
         elif a == 'RecvNack':
@@ -215,7 +224,7 @@ class PitRun:
             # reason code 0 in a plain LP envelope is sent as a Nack header *without* NackReason (NDNLPv2: absent = 0)
             w = lp_wrap(iw, nack_reason=('absent' if (reason == 0 and ev['env'] == 'lp') else reason),
                         extra=(ev['env'] == 'lph'), odd=(ev['env'] == 'lpo'), empty_nack=(reason == 0 and ev['env'] == 'lp'))
-            ex = deliver(self.sess, self.face, w, timers_now=False)
+            ex = deliver(self.sess, self.face, w, timers_now=False, before_run=lambda: self.cancel_in_flight(ev.get('x', [])))
             if ex is not None:
                 self.bg.append('receive:' + type(ex).__name__)
         elif a == 'RecvJunk':
@@ -264,6 +273,13 @@ class PitRun:
             loop.settle(timers_now=False)
         else:
             raise ValueError(a)
+
+    def cancel_in_flight(self, xs):
+        """The callers of the Interests xs cancel them now: the receive task for the packet is already queued, so
+        the packet is processed BEFORE the cancelled tasks run their clean-up."""
+        for e in xs:
+            if e <= len(self.tasks) and self.tasks[e - 1] is not None:
+                self.tasks[e - 1].cancel()
 
     def due_now(self):
         nt = self.loop._next_timer()
